@@ -146,7 +146,8 @@ func loadRegions(
 	f func(region *RegionInfo) []*RegionInfo,
 ) error {
 	nextID := uint64(0)
-	endKey := regionPath(math.MaxUint64)
+	// The end of a range is exclusive: go just past the largest possible region key.
+	endKey := regionPath(math.MaxUint64) + "\x00"
 
 	// Since the region key may be very long, using a larger rangeLimit will cause
 	// the message packet to exceed the grpc message size limit (4MB). Here we use
@@ -180,7 +181,8 @@ func loadRegions(
 			}
 		}
 
-		if len(res) < rangeLimit {
+		// nextID == 0 means the last ID was the largest possible one: nothing can follow it.
+		if len(res) < rangeLimit || (len(res) > 0 && nextID == 0) {
 			return nil
 		}
 	}
